@@ -11,20 +11,14 @@ import (
 	"sort"
 	"strings"
 
-	"github.com/bronlabs/bron-crypto/pkg/mpc/sharing/accessstructures"
-	"github.com/bronlabs/bron-crypto/pkg/mpc/sharing/vss/feldman"
-
 	ad "verif/harness/adapters"
 	"verif/harness/proto"
+	"verif/harness/scen"
 	"verif/harness/toy"
 	"verif/harness/tr"
 )
 
 type ID = ad.ID
-
-func newFeldman(as accessstructures.Monotone) (*feldman.Scheme[ad.G, ad.S], error) {
-	return feldman.NewScheme(toy.NewGroup(), as)
-}
 
 type rec struct {
 	round    int
@@ -33,13 +27,13 @@ type rec struct {
 	data     []byte
 }
 
-func honestRun(sc scenario, seed uint64) (*built, []rec, *proto.Result) {
-	b := sc.build(seed)
+func honestRun(sc scen.Scenario, seed uint64) (*scen.Built, []rec, *proto.Result) {
+	b := sc.Build(scen.NewStreams(seed))
 	if b == nil {
 		return nil, nil, nil
 	}
 	msgs := []rec{}
-	res := proto.Run(b.parties, nil, func(round int, from, to ID, kind string, data []byte) {
+	res := proto.Run(b.Parties, nil, func(round int, from, to ID, kind string, data []byte) {
 		msgs = append(msgs, rec{round, from, to, kind, append([]byte(nil), data...)})
 	})
 	return b, msgs, res
@@ -139,7 +133,9 @@ func ops() []op {
 		{"otherSession", fromAlt("session")},
 		{"truncate", func(t *proto.Tree, l *proto.Leaf, _ map[string]*proto.Tree) bool { return l.Truncate() }},
 		{"extend", func(t *proto.Tree, l *proto.Leaf, _ map[string]*proto.Tree) bool { return l.Extend() }},
-		{"swap01", func(t *proto.Tree, l *proto.Leaf, _ map[string]*proto.Tree) bool { return l.Len >= 2 && l.SwapKids(0, 1) }},
+		{"swap01", func(t *proto.Tree, l *proto.Leaf, _ map[string]*proto.Tree) bool {
+			return l.Len >= 2 && l.SwapKids(0, 1)
+		}},
 		{"shortenBytes", func(t *proto.Tree, l *proto.Leaf, _ map[string]*proto.Tree) bool {
 			// fixed-size byte arrays are zero-padded by the decoder: dropping a trailing zero byte decodes to the very same value
 			if l.Kind != "bytes" || len(l.Bytes) < 2 || l.Bytes[len(l.Bytes)-1] == 0 {
@@ -171,12 +167,12 @@ func main() {
 		}
 	}
 	caseNo := 0
-	for _, sc := range scenarios() {
-		if len(want) > 0 && !want[sc.name] {
+	for _, sc := range scen.Scenarios() {
+		if len(want) > 0 && !want[sc.Name] {
 			continue
 		}
 		sd := *seed * 7919
-		var b *built
+		var b *scen.Built
 		var msgs []rec
 		var hres *proto.Result
 		for {
@@ -187,11 +183,11 @@ func main() {
 			sd++ // a 1/q event of the toy group (identity key, documented retry): take the next seed
 		}
 		all := []ID{}
-		for _, p := range b.parties {
+		for _, p := range b.Parties {
 			all = append(all, p.ID())
 		}
 		sort.Slice(all, func(i, j int) bool { return all[i] < all[j] })
-		w.Emit(map[string]any{"a": "honest", "proto": sc.name, "parties": ids(all), "completed": ids(hres.Completed), "out": b.outputs(hres.Completed), "trusted": uint64(b.trusted)})
+		w.Emit(map[string]any{"a": "honest", "proto": sc.Name, "parties": ids(all), "completed": ids(hres.Completed), "out": b.Outputs(hres.Completed), "trusted": uint64(b.Trusted)})
 		// a parallel session of the same protocol (different randomness) for replay operators
 		var msgs2 []rec
 		for sd2 := sd + 1000; ; sd2++ {
@@ -222,7 +218,7 @@ func main() {
 			if m.kind == "b" {
 				k.to = 0
 			}
-			if seen[k] || m.from == b.trusted {
+			if seen[k] || m.from == b.Trusted {
 				continue
 			}
 			seen[k] = true
@@ -292,18 +288,18 @@ func main() {
 					continue
 				}
 				if *intent != "" { // so that a crash of the whole process (panic in a library goroutine) can be attributed
-					w.Emit(map[string]any{"a": "intent", "case": caseNo, "k": fmt.Sprintf("%s:r%d%s:%s:%s", sc.name, m.round, m.kind, c.leaf, c.op), "proto": sc.name, "round": m.round,
+					w.Emit(map[string]any{"a": "intent", "case": caseNo, "k": fmt.Sprintf("%s:r%d%s:%s:%s", sc.Name, m.round, m.kind, c.leaf, c.op), "proto": sc.Name, "round": m.round,
 						"kind": m.kind, "from": uint64(m.from), "to": uint64(m.to), "leaf": c.leaf, "path": c.path, "op": c.op})
 					w.Flush()
 				}
-				bt := sc.build(sd)
+				bt := sc.Build(scen.NewStreams(sd))
 				var sent []byte
 				tam := &proto.Tamper{Round: m.round, From: m.from, To: m.to, Kind: m.kind, F: func(d []byte) ([]byte, bool) {
 					o, drop := c.mut(d)
 					sent = o
 					return o, drop
 				}}
-				res := proto.Run(bt.parties, tam, nil)
+				res := proto.Run(bt.Parties, tam, nil)
 				changed := c.op == "drop" || !bytes.Equal(sent, m.data)
 				comp := []ID{}
 				for _, id := range res.Completed {
@@ -311,10 +307,10 @@ func main() {
 						comp = append(comp, id)
 					}
 				}
-				w.Emit(map[string]any{"a": "tamper", "case": caseNo, "k": fmt.Sprintf("%s:r%d%s:%s:%s", sc.name, m.round, m.kind, c.leaf, c.op), "proto": sc.name, "round": m.round, "kind": m.kind,
+				w.Emit(map[string]any{"a": "tamper", "case": caseNo, "k": fmt.Sprintf("%s:r%d%s:%s:%s", sc.Name, m.round, m.kind, c.leaf, c.op), "proto": sc.Name, "round": m.round, "kind": m.kind,
 					"from": uint64(m.from), "to": uint64(m.to), "leaf": c.leaf, "path": c.path, "op": c.op, "changed": changed,
-					"rejects": rejectsJ(res.Rejects), "completed": ids(comp), "out": bt.outputs(comp), "stop": res.StopRound,
-					"parties": ids(all), "senderIsPrev": bt.isPrev == nil || bt.isPrev[m.from]})
+					"rejects": rejectsJ(res.Rejects), "completed": ids(comp), "out": bt.Outputs(comp), "stop": res.StopRound,
+					"parties": ids(all), "senderIsPrev": bt.IsPrev == nil || bt.IsPrev[m.from]})
 			}
 		}
 	}
